@@ -68,6 +68,25 @@ def corpus(tier, seed):
         "start = b'ab' | b/x+/i | 'q'i | 0x1F | super.start\n",
     ]
     texts += extra
+    # identifiers that begin or end with a word of the description language itself (the words are read from
+    # grammar.txt on every run): keyword boundaries are where the two parsers can part ways
+    gtxt = open(os.path.join(REPO, 'grammar.txt')).read()
+    words = sorted(set(re.findall(r'''["']([A-Za-z]{2,})["']''', gtxt)))
+    shapes = [
+        '{id} = "a"\nstart = {id} | "b"\n',
+        'start = C\nclass C {{ {id}: "a"; let {id}2: "b"; x: {id}? }}\n',
+        'class C {{\n    {id}: "a"\n    {id}_: "b"\n}}\n',
+        'T({id}, y) = [{id}, y]\nstart = T("a", "b")\n',
+        'start = let {id} = "a" in [{id}, {id}]\n',
+        'start = {id}\nignored {id} = "a"\n',
+        'start = "a" between {{ left: {id}\n right: "b" }}\n{id} = "+"\n',
+        'grammar {id}\nstart = {id}.x | super.{id}\n',
+        'start = {id}("a", {id}=`1`)\n',
+    ]
+    for w in words:
+        for ident in (w + 'ter', w + '_x', w + '1', 'x' + w, w.capitalize() + 'X', w.upper(), w):
+            for sh in (shapes if tier != 'quick' else rng.sample(shapes, 3)):
+                texts.append(sh.format(id=ident))
     base = list(dict.fromkeys(texts))
     # corrupted versions: deleted / duplicated / swapped characters and tokens
     n_mut = 600 if tier == 'quick' else 6000
